@@ -66,6 +66,14 @@ type Chain struct {
 	// AnteResults of the current/last block: index -> error of the ante handler (nil = admitted)
 	AnteErr map[int]error
 	AnteRan map[int]bool
+	// LastAnte records the most recent ante handler invocation in any mode.
+	LastAnte struct {
+		Ran      bool
+		Err      error
+		Check    bool
+		ReCheck  bool
+		Simulate bool
+	}
 	// PanicLog collects panics recovered around ABCI calls.
 	Panics []string
 }
@@ -208,7 +216,10 @@ func (c *Chain) anteWrap(ctx sdk.Context, tx sdk.Tx, sim bool) (sdk.Context, err
 			c.observer(Obs{Kind: "ante", TxIndex: idx, Ctx: readCtx(ctx)})
 		}
 	}
+	c.LastAnte.Ran, c.LastAnte.Err = false, nil
 	newCtx, err := c.innerAnte(ctx, tx, sim)
+	c.LastAnte.Ran, c.LastAnte.Err = true, err
+	c.LastAnte.Check, c.LastAnte.ReCheck, c.LastAnte.Simulate = ctx.IsCheckTx(), ctx.IsReCheckTx(), sim
 	if deliver && idx >= 0 {
 		c.AnteRan[idx] = true
 		c.AnteErr[idx] = err
